@@ -70,3 +70,17 @@ Theorem C09_zero_absorbing (K : CRing) (x xi : K) d p :
   evx K x xi (lp_mul OpsK (lzero K d) p) = k0 /\ evx K x xi (lp_mul OpsK p (lzero K d)) = k0.
 Proof. exact (conj (mul_zero_l K x xi d p) (mul_zero_r K x xi d p)). Qed.
 Print Assumptions C09_zero_absorbing.
+
+(* sampled sup norm: certified two-sided bounds on max_{|w|=1} |f(w)| (real coefficients).
+   modsq f t = |f(e^{it})|^2; the autocorrelation series s is verified exactly, then bounded. *)
+From Coq Require Import QArith Qreals Reals.
+From PyqspV Require Import Model.QInst Model.Checkers Theory.InfNormT.
+Theorem C09_sup_norm_upper_bound f s cells M2 : check_infnorm_ub f s cells M2 = true ->
+  forall t, (modsq f t <= Q2R M2)%R.
+Proof. exact (check_infnorm_ub_sound f s cells M2). Qed.
+Print Assumptions C09_sup_norm_upper_bound.
+
+Theorem C09_sup_norm_lower_bound f s theta m2 : check_infnorm_lb f s theta m2 = true ->
+  exists t, (Q2R m2 < modsq f t)%R.
+Proof. exact (check_infnorm_lb_sound f s theta m2). Qed.
+Print Assumptions C09_sup_norm_lower_bound.
